@@ -381,6 +381,18 @@ func TestC09Grid(t *testing.T) {
 	}
 	h.AddExtra("C09", "precision_rule_grid_cases_enumerated", n)
 	h.AddExtra("C09", "giant_operands_untouched_cases", c09GiantOperands(t))
+	// the one receiver precision at which a temporary "precision + 1" does not fit, with an argument far enough out
+	// that an implementation might leave its exact path: precision and mode must be what they were
+	{
+		f := new(big.Float).SetMantExp(big.NewFloat(1.5), 1<<20+70)
+		z := new(decimal.Decimal).SetPrec(decimal.MaxPrec).SetMode(decimal.ToNegativeInf)
+		z.SetFloat(f)
+		if z.Prec() != decimal.MaxPrec || z.Mode() != decimal.ToNegativeInf {
+			c := ProgCase{Prog: sm.Program{Init: []h.Spec{{F: "z", P: decimal.MaxPrec, M: uint8(decimal.ToNegativeInf)}}, Steps: []sm.Step{{Op: "setfloat", Z: 0, FK: "fin", F: 3, FP: 2}}}}
+			h.ReportGridFail(t, "C09", h.Failf("sticky", "SetFloat(1.5 x 2^%d) into a receiver of precision MaxPrec, ToNegativeInf: precision %d, mode %v afterwards", 1<<20+70, z.Prec(), z.Mode()), mustJSON(c))
+		}
+		h.AddExtra("C09", "setfloat_into_maxprec_receiver", 1)
+	}
 }
 
 // c09GiantOperands: operands of 65537..70001 words (1.3 million digits) whose arrays have spare capacity, as a
